@@ -41,7 +41,9 @@ KEY = ['COCC', 'CC=CCC', 'C1CC=CC=C1', 'C1=CCC=CC1', r'CC/C(C)=C(C)/CC', r'CC/C(
        # a correction that a remap feeds (HalfCis -> 0.5 Cis) together with the correction itself
        'CC=CCC=C(C)C', 'CC(C)=CC',
        # a radical centre on an aromatic / triple-bonded carbon
-       '[c]1ccccc1', 'Cc1cc[c]cc1', '[CH2]C#C', 'C#[C]']
+       '[c]1ccccc1', 'Cc1cc[c]cc1', '[CH2]C#C', 'C#[C]',
+       # a triple bond next to / away from a benzene ring
+       'C#Cc1ccccc1', 'C#CCc1ccccc1']
 GAS = GAS + KEY
 PT = ['C([Pt])C', 'C([Pt])([Pt])C', 'C([Pt])([Pt])([Pt])C', 'CC', 'CCC', 'CO', 'CCO', 'OC([Pt])C', 'CC([Pt])O', 'OCC([Pt])O',
       'C(=O)([Pt])O', 'C(=O)([Pt])C', 'C([Pt])([Pt])O', 'C([Pt])C([Pt])', 'C([Pt])([Pt])C([Pt])([Pt])', 'O([Pt])C', 'O([Pt])CC',
@@ -50,7 +52,9 @@ PT = ['C([Pt])C', 'C([Pt])([Pt])C', 'C([Pt])([Pt])([Pt])C', 'CC', 'CCC', 'CO', '
 RU = ['C([Ru])C', 'C([Ru])([Ru])C', 'CC', 'CCC', 'C([Ru])([Ru])([Ru])C', 'C([Ru])C([Ru])', 'CCO', 'CC(=O)O', 'C(=O)([Ru])O',
       'CC([Ru])=O', 'O([Ru])C(=O)C', 'CCC(=O)O', 'C([Ru])CC(=O)O', 'OC([Ru])C']
 OUTSIDE = ['C[Si](C)(C)C', 'CS', 'C[Au]', 'FC', 'ClCCl', '[He]', 'CB', 'C[Pd]']
-FAMILY = {'BensonGA': GAS, 'PPY': GAS, 'GRWAqueous2018': PT, 'GRWSurface2018': PT, 'GuSolventGA2017Aq': PT,
+# nitrogen heteroaromatics first (the PPY scheme describes them)
+PPYL = ['c1ccncc1', 'Cc1cccnc1', 'c1ccc(cc1)c1ccncc1', 'CCN'] + GAS
+FAMILY = {'BensonGA': GAS, 'PPY': PPYL, 'GRWAqueous2018': PT, 'GRWSurface2018': PT, 'GuSolventGA2017Aq': PT,
           'GuSolventGA2017Vac': PT, 'PtSurface2023': PT, 'SalciccioliGA2012': PT, 'XieGA2022': RU}
 
 SYNTH = """patterns:
@@ -69,6 +73,9 @@ SYNTH = """patterns:
   - center_name: none
     periph_name: H
     connectivity: 'fragment a{ H labeled h1}'
+  - center_name: C
+    periph_name: C
+    connectivity: 'fragment a{ C labeled c1 {connected to >=3 C with single bond}}'
 remaps:
   'C(C)(H)3': [[1, 'CH3']]
   'C(H)3(O)': [[0.5, 'CH3'], [2, 'OX']]
@@ -84,7 +91,9 @@ other_descriptors:
   - name: Gem
     connectivity: 'fragment a{ C labeled c1 O labeled o1 single bond to c1 O labeled o2 single bond to c1}'
 """
-SYNTH_MOLS = ['CC', 'CO', 'CCO', 'CC=O', 'C1CC1', 'OCO', 'CC(=O)C', 'OC1CC1', 'CCC', 'C=C', 'COC', 'OC(O)C', 'CC(O)CO']
+# (the last pattern names the same centre as the first: an atom both describe has no unique description)
+SYNTH_MOLS = ['CC', 'CO', 'CCO', 'CC=O', 'C1CC1', 'OCO', 'CC(=O)C', 'OC1CC1', 'CCC', 'C=C', 'COC', 'OC(O)C', 'CC(O)CO',
+              'CC(C)C', 'CC(C)(C)O']
 
 
 def check_pairs(ctx, names, scheme_jsons, cases, report):
@@ -139,7 +148,7 @@ def check_pairs(ctx, names, scheme_jsons, cases, report):
 
 
 def scheme_set(ctx, thorough, work):
-    names = list(sl.SCHEMES) if thorough else ['BensonGA', 'GRWSurface2018', 'XieGA2022']
+    names = list(sl.SCHEMES) if thorough else ['BensonGA', 'GRWSurface2018', 'XieGA2022', 'PPY']
     d = os.path.join(work, 'synth')
     os.makedirs(d, exist_ok=True)
     p = os.path.join(d, 'scheme.yaml')
@@ -161,7 +170,8 @@ def run(ctx):
             mols = SYNTH_MOLS
         else:
             fam = FAMILY[n]
-            mols = fam if thorough else fam[ctx.seed % 3::3][:14] + fam[:4] + (KEY if fam is GAS else [])
+            mols = fam if thorough else (fam[:4] + fam[4 + ctx.seed % 5::5][:6] if fam is PPYL else
+                                         fam[ctx.seed % 3::3][:14] + fam[:4] + (KEY if fam is GAS else []))
             mols = list(dict.fromkeys(mols)) + OUTSIDE[:(len(OUTSIDE) if thorough else 3)]
         for smi in mols:
             cases.append((si, smi, smi, smi))
